@@ -69,6 +69,10 @@ pub enum QStep {
     /// another read of the store between writes and queries: 0 list documents, 1 list authors,
     /// 2 content hashes, 3 heads, 4 flush, 5 peers, 6 policy
     OtherRead { kind: u8 },
+    /// an operation that is refused and must change nothing: 0 removal of a document that is open,
+    /// 1 a policy for a document that does not exist, 2 a peer registration for a document that
+    /// does not exist, 3 opening a document that does not exist
+    Refused { d: u8, kind: u8 },
 }
 
 #[derive(Serialize, Deserialize, Clone, Debug)]
@@ -174,6 +178,9 @@ impl Scenario for QueryScen {
             }
             if rng.chance(1, 5) {
                 steps.push(QStep::OtherRead { kind: rng.below(7) as u8 });
+            }
+            if rng.chance(1, 10) {
+                steps.push(QStep::Refused { d: rng.below(g.docs as u64) as u8, kind: rng.below(4) as u8 });
             }
             if rng.chance(1, 3) || i == n - 1 {
                 for _ in 0..rng.urange(1, 6) {
@@ -414,6 +421,31 @@ async fn run(plan: &QueryPlan, cx: &mut Cx) -> Res {
                 models[d as usize] = RefDoc::default();
                 cx.probe("document_removed_and_recreated_between_queries");
                 cx.ev("remove-doc", format!("d{d}"));
+            }
+            QStep::Refused { d, kind } => {
+                let d = *d % crate::world::N_DOCS as u8;
+                let ns = w.doc_id(d);
+                let missing = w.foreign_doc.id();
+                let st = sut.store();
+                let refused = match kind % 4 {
+                    0 => {
+                        if st.load_replica_info(&ns).is_ok() {
+                            let r = st.remove_replica(&ns).is_err();
+                            st.close_replica(ns);
+                            r
+                        } else {
+                            true
+                        }
+                    }
+                    1 => st.set_download_policy(&missing, Default::default()).is_err(),
+                    2 => st.register_useful_peer(missing, w.peers[0]).is_err(),
+                    _ => st.load_replica_info(&missing).is_err(),
+                };
+                if !refused {
+                    return Err(harness(format!("an operation that must be refused (kind {kind}) succeeded")));
+                }
+                cx.fault("refused_operation_between_queries");
+                cx.ev("refused", format!("d{d} kind {kind}"));
             }
             QStep::Restart => {
                 if sut.can_restart() {
